@@ -68,12 +68,17 @@ def make_vals(rng, H, W, kind):
         row = []
         for c in range(W):
             u = rng.random()
-            if kind == "int":
+            if kind == "bigint":
+                row.append(rng.choice([0, 5, 16777216, 16777217, 16777221, 33554433]))
+            elif kind == "int":
                 row.append(rng.randrange(0, 10))
             elif u < 0.12:
                 row.append("nan")
             elif u < 0.15 and kind == "floatinf":
                 row.append(rng.choice(["inf", "-inf"]))
+            elif kind == "float64u":
+                # values single precision cannot hold: a global min/max taken on a float32 copy shows
+                row.append(rng.choice([0.1, 1 / 3, 2500.0001, 16777217.0, 16777219.0, -0.7, 3, 8, 1e-3]))
             else:
                 row.append(rng.choice([0, 1, 2, 3, 5, 8, 13, 2.5, 7.25, 100.125, 1000.5]))
         vals.append(row)
@@ -87,7 +92,7 @@ def build_jobs(ctx, rng):
     jobs = {}      # func label -> list of jobs
 
     def add(label, func, params, H, W, dtype, kind, radius=(1, 1), geo=None, kh=1, kw=1, passes=1, independent=False):
-        vals = make_vals(rng, H, W, "int" if dtype.startswith(("int", "uint")) else kind)
+        vals = make_vals(rng, H, W, kind if kind == "bigint" else ("int" if dtype.startswith(("int", "uint")) else kind))
         ch = pick_chunkings(rng, H, W, nchunk, not quick and H * W <= 30)
         if independent:
             for c in ch:
@@ -141,6 +146,9 @@ def build_jobs(ctx, rng):
         add("reclassify", "reclassify", {"bins": [1, 3, 8, 50], "new_values": [10, 20, 30, 40]}, H, W,
             rng.choice(["float32", "float64", "uint8"]), "floatinf")
         add("equal_interval", "equal_interval", {"k": rng.choice([2, 3, 5])}, H, W, "float64", "float")
+        add("equal_interval", "equal_interval", {"k": rng.choice([2, 4])}, H, W, "float64", "float64u")
+        add("equal_interval", "equal_interval", {"k": 3}, H, W, "int64", "bigint")
+        add("hotspots", "hotspots", {"kernel": KERNELS["k3x3"]}, H, W, "float64", "float64u", (1, 1), kh=3, kw=3)
         for f in INDICES:
             p = {}
             if f == "evi":
@@ -156,6 +164,26 @@ def build_jobs(ctx, rng):
         add("perlin", "perlin", {"freq": [1, 2], "seed": rng.randrange(100)}, H, W, "float32", "float")
         add("generate_terrain", "generate_terrain", {"seed": rng.randrange(100), "zfactor": 4000}, H, W, "float32",
             "float", geo="unit")
+    # stress family: many blocks running concurrently under the threaded scheduler (shared scratch state shows
+    # only when block tasks overlap in time): 96x96 rasters, 16x16 chunks, 7x7 / 5x5 kernels, 8 and 16 workers
+    big = 7
+    K7 = [[1 if (r + c) % 2 == 0 or r == c else 0 for c in range(big)] for r in range(big)]
+    for (func, params, rad, kh, kw) in (
+            ("focal_apply", {"kernel": K7}, (3, 3), 7, 7),
+            ("focal_apply", {"kernel": K7, "reducer": "weighted"}, (3, 3), 7, 7),
+            ("focal_stats", {"kernel": K7}, (3, 3), 7, 7),
+            ("convolution_2d", {"kernel": [[float((r * 7 + c) % 5) for c in range(5)] for r in range(5)]}, (2, 2), 5, 5),
+            ("focal_mean", {"passes": 2, "excludes": ["nan"]}, (1, 1), 1, 1),
+            ("slope", {}, (1, 1), 1, 1), ("hotspots", {"kernel": K7}, (3, 3), 7, 7)):
+        H = W = 96
+        vals = [[float(rng.randrange(0, 1000)) for _ in range(W)] for _ in range(H)]
+        ch = [{"rows": [16] * 6, "cols": [16] * 6, "sched": "threads", "nw": nw} for nw in (8, 16, 16, 16, 12, 16)]
+        if not quick:
+            ch += [{"rows": [8] * 12, "cols": [24] * 4, "sched": "threads", "nw": nw} for nw in (4, 16)]
+        jobs.setdefault("stress_" + func, []).append(
+            {"func": func, "params": params, "H": H, "W": W, "vals": vals, "dtype": "float64", "radius": list(rad),
+             "chunkings": ch, "kh": kh, "kw": kw, "passes": params.get("passes", 1), "xs": None, "ys": None,
+             "res": None})
     return jobs
 
 
